@@ -233,6 +233,89 @@ def sens_spec(cur, new):
     return spec
 
 
+# ---- assignment statements and if: the text of the statement kind (C03: `<=` signal, `:=` variable) ---------------
+from cohdl._core._type_qualifier import Signal as _Sig, Temporary as _Tmp  # noqa: E402
+
+
+def _cast_model(it, self, target, value, value_str):
+    return SFmt(["CAST(", Opaque("cast-of", target, value), ":", value_str, ")"])
+
+
+def assign_shape(vcls):
+    def make(env):
+        tres = SObj(_Sig, _value=SObj(Bit, _val=None), _ref_spec=[])
+        tres.fields["_root"] = tres
+        return SObj(vcls, _target=SObj(VR.Target, result=tres), _source=SObj(VR.Value, result=Opaque("source-result")))
+
+    return Built([], make, lambda asg: "None", lambda asg: None)
+
+
+def assign_spec(symbol):
+    def spec(sx, self, scope):
+        real = sx.real_args[0]
+
+        def holds(res):
+            if not isinstance(res, SFmt):
+                return False
+            p = res.parts
+            # <target text> <symbol> CAST(<cast of (target.result, source.result)>:<source text>);
+            if len(p) != 6 or p[1] != f" {symbol} CAST(" or p[3] != ":" or p[5] != ");":
+                return False
+            t, c, s = p[0], p[2], p[4]
+            ok_t = isinstance(t, Opaque) and t.deps and t.deps[0] is real.fields["_target"]
+            ok_s = isinstance(s, Opaque) and s.deps and s.deps[0] is real.fields["_source"]
+            ok_c = isinstance(c, Opaque) and c.deps[0] is real.fields["_target"].fields["result"] and c.deps[1] is real.fields["_source"].fields["result"]
+            return ok_t and ok_s and ok_c and "".join(x for x in p if isinstance(x, str)).endswith(");")
+
+        return C.Pred(holds, f"target {symbol} cast(source);")
+
+    return spec
+
+
+for vcls, symbol in ((VR.SignalAssignment, "<="), (VR.VariableAssignment, ":=")):
+    con = contract(VRM + f"{vcls.__name__}.write", PROPS + ("C03",))
+    c = Case("scalar", [assign_shape(vcls), SCOPE], assign_spec(symbol))
+    c.native = False
+    c.models = [(VhdlScope.__dict__["format_cast"], _cast_model)]
+    con.cases.append(c)
+
+
+def if_shape(orelse_empty):
+    def make(env):
+        return SObj(VR.If, _test=SObj(VR.Value, result=Opaque("t")), _body=SObj(VR.CodeBlock, _stmts=[], __empty__=False), _orelse=SObj(VR.CodeBlock, _stmts=[], __empty__=orelse_empty))
+
+    return Built([], make, lambda asg: "None", lambda asg: None)
+
+
+def if_write_spec(orelse_empty):
+    def spec(sx, self, scope):
+        real = sx.real_args[0]
+
+        def holds(res):
+            texts = [t for _, t in flat(res)]
+
+            def is_text_of(x, obj):
+                return isinstance(x, SFmt) and len(x.parts) == 1 and isinstance(x.parts[0], Opaque) and x.parts[0].deps[0] is obj
+
+            head = texts[0]
+            if not (isinstance(head, SFmt) and head.parts[0] == "if " and head.parts[-1] == " then" and isinstance(head.parts[1], Opaque) and head.parts[1].deps[0] is real.fields["_test"]):
+                return False
+            if orelse_empty:
+                return len(texts) == 3 and is_text_of(texts[1], real.fields["_body"]) and text_is(texts[2], "end if;")
+            return len(texts) == 5 and is_text_of(texts[1], real.fields["_body"]) and text_is(texts[2], "else") and is_text_of(texts[3], real.fields["_orelse"]) and text_is(texts[4], "end if;")
+
+        return C.Pred(holds, "if <test> then <body> [else <orelse>] end if;")
+
+    return spec
+
+
+con = contract(VRM + "If.write", PROPS + ("C03",))
+for oe in (False, True):
+    c = Case("no-else" if oe else "else", [if_shape(oe), SCOPE], if_write_spec(oe))
+    c.native = False
+    con.cases.append(c)
+
+
 con = contract("cohdl._compiler.frontend._prepare_ast:PrepareAst.add_sensitivity", PROPS)
 for cur in ("none", "all", "list"):
     for new in ("all", "list"):
